@@ -1,6 +1,8 @@
 package main
 
 import (
+	"path/filepath"
+	"os"
 	"bytes"
 	"runtime"
 	"fmt"
@@ -36,6 +38,12 @@ var robustCorpus = []string{
 	"goroutine 1 [running]:\nmain.f()\n\t/a.go:1\n\ngoroutine 1234567890123456789 [running]:\nmain.g()\n\t/b.go:2\nend\n",
 	"goroutine 123456789012345678 [running]:\nmain.f()\n\t/a.go:1234567890123456789\n",
 	"goroutine 1 [running]:\nmain.f(0x1}})\n\t/a.go:1\n",
+	// race operation headers the regexp accepts but whose numbers do not fit: address of more than 16
+	// hex digits, goroutine id of 19 digits; in the first and in a later operation
+	"==================\nWARNING: DATA RACE\nRead at 0x00c0000e403012345678 by goroutine 7:\n  main.f()\n      /a/b.go:12 +0x1\n\n==================\n",
+	"==================\nWARNING: DATA RACE\nWrite at 0x00c0000e4030 by goroutine 1234567890123456789:\n  main.f()\n      /a/b.go:12 +0x1\n\n==================\n",
+	"==================\nWARNING: DATA RACE\nRead at 0x00c0000e4030 by goroutine 7:\n  main.f()\n      /a/b.go:12 +0x1\n\nPrevious write at 0x00c0000e403012345678 by goroutine 8:\n  main.g()\n      /a/b.go:13 +0x1\n\n==================\n",
+	"==================\nWARNING: DATA RACE\nRead at 0x00c0000e4030 by goroutine 7:\n  main.f()\n      /a/b.go:12 +0x1\n\nPrevious write at 0x00c0000e4030 by goroutine 1234567890123456789:\n  main.g()\n      /a/b.go:13 +0x1\n\n==================\n",
 }
 
 // renderAll aggregates at every level and renders as text and HTML.
@@ -119,11 +127,100 @@ func mutateStream(r *Rng, s string) string {
 	return strings.Join(lines, "")
 }
 
+// runC03Sources: source analysis on real files.  The runtime prints at most ten words per
+// call, so an argument list can stop anywhere - also in the middle of a string, slice or
+// interface value.  Every such prefix, for functions whose parameters take one, two or three
+// words, must be augmented (or left alone) without a crash.
+func runC03Sources(res *Result, r *Rng) {
+	dir, err := os.MkdirTemp("", "verif-c03-src-")
+	if err != nil {
+		return
+	}
+	defer os.RemoveAll(dir)
+	type fn struct {
+		name   string
+		params string
+		shape  []int // words per parameter
+		line   int
+	}
+	fns := []fn{
+		{"f", "a, b, c, d []int", []int{3, 3, 3, 3}, 0},
+		{"g", "s string, i interface{}, e error, p *int, m map[string]int", []int{2, 2, 2, 1, 1}, 0},
+		{"h", "a int, s string, b []byte, v ...interface{}", []int{1, 2, 3, 3}, 0},
+		{"k", "x float64, ok bool, c chan int, cb func(), t string", []int{1, 1, 1, 1, 2}, 0},
+	}
+	var src strings.Builder
+	src.WriteString("package main\n\n")
+	line := 3
+	for i := range fns {
+		fmt.Fprintf(&src, "func %s(%s) {\n\tpanic(1)\n}\n\n", fns[i].name, fns[i].params)
+		fns[i].line = line + 1
+		line += 4
+	}
+	src.WriteString("func main() {\n}\n")
+	os.MkdirAll(filepath.Join(dir, "src", "app"), 0o755)
+	path := filepath.Join(dir, "src", "app", "main.go")
+	os.WriteFile(path, []byte(src.String()), 0o644)
+	opts := &stack.Opts{LocalGOPATHs: []string{dir}, NameArguments: true, GuessPaths: true, AnalyzeSources: true}
+	for _, f := range fns {
+		total := 0
+		for _, w := range f.shape {
+			total += w
+		}
+		for k := 0; k <= total; k++ {
+			for _, dots := range []bool{false, true} {
+				// print the first k words, grouped like the runtime groups them
+				var parts []string
+				left := k
+				for _, w := range f.shape {
+					if left == 0 {
+						break
+					}
+					n := w
+					if n > left {
+						n = left
+					}
+					var ws []string
+					for j := 0; j < n; j++ {
+						ws = append(ws, fmt.Sprintf("0x%x", 0xc000010000+uint64(r.Intn(4))*0x1000+uint64(j)))
+					}
+					left -= n
+					if w == 1 {
+						parts = append(parts, ws[0])
+					} else {
+						if n < w && dots {
+							ws = append(ws, "...")
+						}
+						parts = append(parts, "{"+strings.Join(ws, ", ")+"}")
+					}
+				}
+				if dots && k < total && (len(parts) == 0 || !strings.HasSuffix(parts[len(parts)-1], "...}")) {
+					parts = append(parts, "...")
+				}
+				dump := fmt.Sprintf("goroutine 1 [running]:\nmain.%s(%s)\n\t%s:%d +0x1d\nmain.main()\n\t%s:%d +0x2\n\n", f.name, strings.Join(parts, ", "), path, f.line, path, line)
+				var s *stack.Snapshot
+				if p := catch(func() { s, _, _ = stack.ScanSnapshot(strings.NewReader(dump), io.Discard, opts) }); p != nil {
+					res.Violation(Finding{Stream: "sources", What: fmt.Sprintf("ScanSnapshot with the sources on disk panicked on an argument list that stops after %d of %d words of func %s(%s): %v", k, total, f.name, f.params, p), Op: map[string]interface{}{"dump": dump, "source": src.String()}})
+					return
+				}
+				res.Count("source-truncated-args")
+				if s != nil {
+					if what, p := renderAll(s); p != nil {
+						res.Violation(Finding{Stream: "sources", What: fmt.Sprintf("%s panicked on a snapshot augmented from sources: %v", what, p), Op: map[string]interface{}{"dump": dump}})
+						return
+					}
+				}
+			}
+		}
+	}
+}
+
 var goroot = strings.ReplaceAll(runtime.GOROOT(), "\\", "/")
 
 func runC03(prop string, res *Result, pool *DrvPool, r *Rng) {
 	res.Rule = "corpus of past crashers, then grammar-aware mutants of generated dumps and race reports (delete/duplicate/swap/splice lines, truncate, corrupt characters incl. invalid UTF-8, escapes, brackets, numbers) and every line-kind sequence up to a bounded length; each input is scanned (repeatedly, with the resume protocol), every snapshot aggregated at all levels and rendered as text and HTML, and run through the command's process(); all under recover with a time bound; non-trivial = the mutant reaches a non-looking state; distinct by hash of the input"
 	runLowStreams(res, pool, r.Fork())
+	runC03Sources(res, r.Fork())
 	check := func(name, input string) {
 		op := &ScanOp{Op: "scan", Data: hb(input), Sched: genSched(r, len(input)), Final: "eof", WithData: r.Bool()}
 		var el time.Duration
@@ -143,6 +240,10 @@ func runC03(prop string, res *Result, pool *DrvPool, r *Rng) {
 			}
 			if got.Snap != nil {
 				reached = true
+			}
+			{
+				// whatever snapshot comes back (also one returned together with an error, also an
+				// empty one) must survive everything a caller does with a snapshot
 				rd := &SchedReader{data: []byte(in), final: io.EOF}
 				var s *stack.Snapshot
 				if p := catch(func() { s, _, _ = stack.ScanSnapshot(rd, io.Discard, &stack.Opts{NameArguments: true}) }); p != nil {
@@ -152,6 +253,10 @@ func runC03(prop string, res *Result, pool *DrvPool, r *Rng) {
 				if s != nil {
 					var what string
 					var p interface{}
+					if p = catch(func() { s.IsRace() }); p != nil {
+						res.Violation(Finding{Stream: "render", What: fmt.Sprintf("%s: Snapshot.IsRace panicked: %v", name, p), Op: cop})
+						return
+					}
 					timed(func() { what, p = renderAll(s) })
 					if p != nil {
 						res.Violation(Finding{Stream: "render", What: fmt.Sprintf("%s: %s panicked: %v", name, what, p), Op: cop})
